@@ -6,6 +6,7 @@ import (
 	"github.com/llir/llvm/ir/types"
 	"math"
 	"os"
+	"reflect"
 	"sort"
 	"strings"
 	"testing"
@@ -77,6 +78,35 @@ func checkProgram(t hx.TB, test string, m *am.Module) (ok bool, calls map[string
 	}
 	if n := scalls["shared constant object used again"]; n > 0 {
 		hx.HistN("constant_object_reached_from_another_place", n)
+	}
+	// (2d) more than one module: a second module lists the very same entities (a driver that links one runtime
+	// into every module it emits lists the same function and global objects in several modules) and has one
+	// more unnamed global variable in front, so that the numbers of unnamed globals and functions differ between
+	// the two modules. The second module must print what a module built on its own with that extra global
+	// prints, and the first module must print what it printed before.
+	{
+		second := ir.NewModule()
+		sv, iv := reflect.ValueOf(second).Elem(), reflect.ValueOf(im).Elem()
+		for i := 0; i < iv.NumField(); i++ {
+			if iv.Type().Field(i).PkgPath == "" {
+				sv.Field(i).Set(iv.Field(i))
+			}
+		}
+		extra := func() *ir.Global { return ir.NewGlobalDef("", constant.NewInt(types.I32, 7)) }
+		second.Globals = append([]*ir.Global{extra()}, im.Globals...)
+		var alone *ir.Module
+		if p := lx.Guard(func() { alone, _ = emit.Module(m) }); p == nil {
+			alone.Globals = append([]*ir.Global{extra()}, alone.Globals...)
+			yw, pw := lx.Print(alone)
+			ysec, psec := lx.Print(second)
+			if pw == nil && (psec != nil || ysec != yw) {
+				hx.Fail(t, test, "ll", c, "a second module that lists the same entities after one more unnamed global prints differently from a module built on its own with that global (%v):\n%s", psec, llvmx.Diff(yw, ysec))
+			}
+			if y1, p1 := lx.Print(im); p1 != nil || y1 != y {
+				hx.Fail(t, test, "ll", c, "after a second module that lists the same entities was printed, the first module prints differently (%v):\n%s", p1, llvmx.Diff(y, y1))
+			}
+			hx.Hist("entities_listed_by_two_modules")
+		}
 	}
 	// (3) the library's parser accepts the text, re-prints it identically, structurally identical module
 	pm, err, pp := lx.Parse(y)
